@@ -109,6 +109,12 @@ C_MUTANTS = [
     ('C37', ['dl_close_lib'], 'src/c/_cffi_backend.c',
      '        dlclose(dlobj->dl_handle);\n        dlobj->dl_handle = NULL;\n    }\n    Py_INCREF(Py_None);',
      '        dlclose(dlobj->dl_handle);\n    }\n    Py_INCREF(Py_None);'),
+    ('C18', ['b_unpack'], 'src/c/_cffi_backend.c',
+     '        case 6: x = PyLong_FromLong((long)*(unsigned int *)src); break;',
+     '        case 6: x = PyLong_FromLong((long)*(int *)src); break;'),
+    ('C18', ['b_unpack'], 'src/c/_cffi_backend.c',
+     '            if (ctitem->ct_flags & CT_IS_BOOL)           casenum = 11;\n            else if',
+     '            if (0)           casenum = 11;\n            else if'),
     ('C22', ['b_set_errno'], 'src/c/_cffi_backend.c',
      '    else if (ival < INT_MIN || ival > INT_MAX) {', '    else if (ival < INT_MIN || ival > UINT_MAX) {'),
     ('C17', ['cdata_richcompare'], 'src/c/_cffi_backend.c',
